@@ -139,7 +139,9 @@ enum {
 	VT_EXPIRE_DONE,
 	VT_SLEEP_CANCEL,
 	VT_RESET,
-	VT_SLEEP_SETUP
+	VT_SLEEP_SETUP,
+	VT_EXPIRE_MARK,
+	VT_EXPIRE_SKIP
 };
 static void
 nni_verif_rec_aio(int kind, nni_aio *aio, int arg)
@@ -797,6 +799,7 @@ nni_aio_expire_loop(void *arg)
 				// Place a temporary hold on the aio.
 				// This prevents it from being destroyed.
 				aio->a_expiring = true;
+				NNI_VERIF_AIO(VT_EXPIRE_MARK, aio, 0);
 				aio             = nxt;
 				continue;
 			}
@@ -814,6 +817,7 @@ nni_aio_expire_loop(void *arg)
 			// on the same aio.  Expire only what is still due.
 			if ((!q->eq_stop) && (aio->a_expire >= now)) {
 				aio->a_expiring = false;
+				NNI_VERIF_AIO(VT_EXPIRE_SKIP, aio, 0);
 				continue;
 			}
 			nni_aio_expire_rm(aio);
